@@ -1,13 +1,14 @@
 """C11 - a distribution bin is the integral of the integrand restricted to that bin.
 Spec: Bins.tla (BinOf admissible bins, MidX/MidY, per-bin accumulation), MC_Bins, Trace_C11."""
 import vt
+import mpicommon
 
 LEVEL = "model_checking"
 BUILDS = [(("drv_c11", ["drv_c11.cpp"]), {})]
 ACTIONS = ("Fill1", "Mid", "Begin", "Fill", "BinResult", "End")
 
 
-def run(chk, replay=None):
+def run_main(chk, replay=None):
     thorough = chk.tier == "thorough"
     chk.cov["checker_cmd"] = "tlc MC_Bins; tlc Trace_C11 (TRACE=out/C11/trace.ndjson)"
     chk.cov["trusted_base"] = ["TLC", "Apalache 0.58 + Z3 (one-axis law for unbounded integers)", "dyadic parameters/coordinates so that the library's own arithmetic is exact", "exact_scaled projection of sums"]
@@ -56,6 +57,15 @@ def run(chk, replay=None):
         if r2.rc == 0:
             raise vt.MachineryError("binding self-test: corrupted trace accepted")
         chk.cov["binding_selftest"] = "bin sum corrupted at event %d: rejected (matched %s)" % (i + 1, r2.matched)
+
+
+def run(chk, replay=None):
+    if mpicommon.is_mpi_replay(replay):
+        mpicommon.mpi_leg(chk, "C11:mpi", replay=replay)
+        return
+    run_main(chk, replay=replay)
+    if not replay and not chk.violations:
+        mpicommon.legs(chk, "C11:mpi", big=False)
 
 
 def replay(chk, path):
